@@ -110,8 +110,26 @@ fn shared_name_programs() -> Vec<(String, String, String)> {
     out
 }
 
+/// a derived type edited on disk between two compilations of one process: (name, definition and maker before, what
+/// is printed before, definition and maker after, what is printed after); the attribute and the name stay where they are
+const EDITS: [(&str, &str, &str, &str, &str); 6] = [
+    ("field-added", "#[derive(ToString, ToJson)]\nstruct P { a: int32 }\nfn mk() -> P { P { a: 1 } }\n", "P { a: 1 }\n{\"a\":1}\n", "#[derive(ToString, ToJson)]\nstruct P { a: int32, b: string }\nfn mk() -> P { P { a: 1, b: \"x\" } }\n", "P { a: 1, b: x }\n{\"a\":1,\"b\":\"x\"}\n"),
+    ("field-retyped", "#[derive(ToString, ToJson)]\nstruct P { a: int32 }\nfn mk() -> P { P { a: 1 } }\n", "P { a: 1 }\n{\"a\":1}\n", "#[derive(ToString, ToJson)]\nstruct P { a: string }\nfn mk() -> P { P { a: \"s\" } }\n", "P { a: s }\n{\"a\":\"s\"}\n"),
+    ("field-renamed", "#[derive(ToString, ToJson)]\nstruct P { a: int32 }\nfn mk() -> P { P { a: 1 } }\n", "P { a: 1 }\n{\"a\":1}\n", "#[derive(ToString, ToJson)]\nstruct P { z: int32 }\nfn mk() -> P { P { z: 1 } }\n", "P { z: 1 }\n{\"z\":1}\n"),
+    ("field-of-another-derived-type", "#[derive(ToString, ToJson)]\nstruct Q { q: int32 }\n#[derive(ToString, ToJson)]\nstruct P { a: int32 }\nfn mk() -> P { P { a: 1 } }\n", "P { a: 1 }\n{\"a\":1}\n", "#[derive(ToString, ToJson)]\nstruct Q { q: int32 }\n#[derive(ToString, ToJson)]\nstruct P { a: Q     }\nfn mk() -> P { P { a: Q { q: 7 } } }\n", "P { a: Q { q: 7 } }\n{\"a\":{\"q\":7}}\n"),
+    ("variant-added", "#[derive(ToString, ToJson)]\nenum P { A(int32) }\nfn mk() -> P { P::A(1) }\n", "P::A(1)\n{\"tag\":\"A\",\"fields\":[1]}\n", "#[derive(ToString, ToJson)]\nenum P { A(int32), B }\nfn mk() -> P { P::B }\n", "P::B\n{\"tag\":\"B\"}\n"),
+    ("payload-retyped", "#[derive(ToString, ToJson)]\nenum P { A(int32) }\nfn mk() -> P { P::A(1) }\n", "P::A(1)\n{\"tag\":\"A\",\"fields\":[1]}\n", "#[derive(ToString, ToJson)]\nenum P { A(string) }\nfn mk() -> P { P::A(\"s\") }\n", "P::A(s)\n{\"tag\":\"A\",\"fields\":[\"s\"]}\n"),
+];
+
 fn cases_list(tier: Tier) -> Vec<Value> {
     let mut v = Vec::new();
+    for (e, _, _, _, _) in EDITS {
+        for place in ["imported-package", "second-file-of-the-package"] {
+            for between in ["nothing", "a-hover-query"] {
+                v.push(json!({"kind": "after-edit", "edit": e, "place": place, "between": between}));
+            }
+        }
+    }
     for (i, _) in shared_name_programs().iter().enumerate() {
         v.push(json!({"kind": "shared-name", "index": i}));
     }
@@ -378,6 +396,67 @@ impl Family for Derive {
     }
     fn run(&self, case: &Value, ctx: &mut Ctx) -> Report {
         let mut rep = Report::default();
+        if case["kind"] == "after-edit" {
+            // two compilations in this process, the file that declares the derived type rewritten between them
+            let (edit, place, between) = (case["edit"].as_str().unwrap(), case["place"].as_str().unwrap(), case["between"].as_str().unwrap());
+            let (_, def1, out1, def2, out2) = EDITS.iter().find(|(e, _, _, _, _)| *e == edit).unwrap();
+            let site = format!("derived-type-edited-between-two-compilations;edit={};place={};between={}", edit, place, between);
+            rep.outcome = Some(site.clone());
+            rep.nontrivial_key = Some(site.clone());
+            let root = ctx.scratch.fresh_dir("derive-edit");
+            let (main, other) = if place == "imported-package" {
+                ("package Main\nimport Lib\n\nfn main() {\n    let p: Lib::P = Lib::mk();\n    string_println(p.to_string());\n    string_println(p.to_json())\n}\n".to_string(), root.join("Lib/lib.gom"))
+            } else {
+                ("package Main\n\nfn main() {\n    let p: P = mk();\n    string_println(p.to_string());\n    string_println(p.to_json())\n}\n".to_string(), root.join("types.gom"))
+            };
+            let header = if place == "imported-package" { "package Lib\n\n" } else { "package Main\n\n" };
+            std::fs::create_dir_all(other.parent().unwrap()).ok();
+            let path = root.join("main.gom");
+            std::fs::write(&path, &main).ok();
+            for (step, (def, want)) in [(def1, out1), (def2, out2)].into_iter().enumerate() {
+                std::fs::write(&other, format!("{}{}", header, def)).ok();
+                let text = format!("{}//// FILE {}\n{}{}", main, if place == "imported-package" { "Lib/lib.gom" } else { "types.gom" }, header, def);
+                let replay = json!({"kind": "differential", "family": "derive", "case": case, "source": text, "expected": {"stdout": want, "end": "ok"}, "note": format!("compilation {} of 2 in one process, the same paths", step + 1)});
+                let verdict: Result<String, (String, String)> = match crate::oracle::compile_at(&path, &main) {
+                    crate::oracle::CompileOutcome::Ok(c) => {
+                        let go = crate::oracle::go_text(&c).unwrap_or_default();
+                        drop(c);
+                        match crate::projects::run_go(&go, FUEL) {
+                            Ok(o) => Ok(lossy(&o.stdout)),
+                            Err(m) => Err(("go".into(), m)),
+                        }
+                    }
+                    crate::oracle::CompileOutcome::Err(e) => {
+                        let (stage, msg) = describe_err(&e);
+                        Err((format!("rejected.{}", stage), msg))
+                    }
+                    crate::oracle::CompileOutcome::Panic(m) => Err(("panic".into(), m)),
+                };
+                match verdict {
+                    Ok(out) if out == *want => rep.tag(format!("compilation-{}:agrees", step + 1)),
+                    Err((c, m)) if c == "go" && m.starts_with("machinery") => rep.tag("machinery:go-unsupported"),
+                    other_verdict => {
+                        let detail = match other_verdict { Ok(out) => format!("expected {:?} got {:?}", want, out), Err((c, m)) => format!("{}: {}", c, m) };
+                        if step == 0 {
+                            // the first compilation guards the template
+                            rep.tag("machinery:derive-edit-template-broken");
+                            rep.sample = Some(json!({"site": site, "detail": detail}));
+                            return rep;
+                        }
+                        for p in ["C18", "C13"] {
+                            rep.findings.push(Finding { property: p, class: "derive.stale-after-edit".into(), site: site.clone(), detail: format!("second compilation in one process after the type's file was rewritten: {}", detail), replay: replay.clone() });
+                        }
+                    }
+                }
+                if step == 0 && between == "a-hover-query" {
+                    // an editor asks about `mk` in main.gom before the file is saved again
+                    let off = main.find("p.to_string").unwrap_or(0);
+                    let (line, col) = (main[..off].matches('\n').count() as u32, (off - main[..off].rfind('\n').map(|i| i + 1).unwrap_or(0)) as u32);
+                    let _ = std::panic::catch_unwind(std::panic::AssertUnwindSafe(|| compiler::query::hover_type(&path, &main, line, col)));
+                }
+            }
+            return rep;
+        }
         if case["kind"] == "shared-name" {
             let (name, text, expected) = shared_name_programs()[case["index"].as_u64().unwrap() as usize].clone();
             let site = format!("struct-named-like-a-variant;{}", name);
